@@ -463,30 +463,28 @@ example : ∃ f f', load [91, 97, 93, 10, 107, 61, 49, 10, 91, 98, 93, 10, 107, 
 loaded or edited (`reparse_edited`) — such that
 * the edited file's own events re-parse to themselves (`hs`: the print-then-parse direction for the
   events as they stand, NOT proved in general — it is the remaining open part of `C28_full`),
-* the text has no BOM head byte and does not end in a lone CR, and the events END IN A VALUE
+* the text has no byte-order mark, and the events END IN A VALUE
   (no comment, whitespace or newline run at the very end of the file),
 * `File::write_to` inserts nothing, or exactly the missing final newline (`\n` / `\r\n` as the file uses),
 the written text loads and has the same view (header and entries of every section, in order) and
 the same comments in every section as the edited file. -/
 theorem C28_full_uniform_newlines (f f' : FileS) (op : AnyOp) (_h : applyAny f op = .ok f')
     (hs : fileFromBytes (render f'.toFile.events) = some f'.toFile)
-    (hbom : noBomHead (render f'.toFile.events) = true) (hcr : (render f'.toFile.events).getLast? ≠ some 13)
     (hfin : f'.toFile.normal = true ∨
       (f'.toFile.aug = f'.toFile.events ++ [.newline (detectNewline f'.toFile)] ∧
         ∃ e, f'.toFile.events.getLast? = some e ∧ (isValueEnd e = true ∨ evIsWs e = true ∨ isHeaderEv e = true ∨
           (isComment e = true ∧ detectNewline f'.toFile = [10])))) :
     ∃ g, load f'.write = some g ∧ g.view = f'.view ∧ g.comments = f'.comments :=
-  reparse_edited f' hs hbom hcr hfin
+  reparse_edited f' hs hfin
 
 -- non-vacuity: `[a]\n\tk = v` (no final newline), `set a.k = "x y "`: all hypotheses hold, the final newline is added
 example : ∃ f f', load [91, 97, 93, 10, 9, 107, 32, 61, 32, 118] = some f ∧
     applyAny f (.single (.set [97] none [107] [120, 32, 121, 32])) = .ok f' ∧
     fileFromBytes (render f'.toFile.events) = some f'.toFile ∧
-    noBomHead (render f'.toFile.events) = true ∧
     (∃ e, f'.toFile.events.getLast? = some e ∧ isValueEnd e = true) ∧
     f'.toFile.aug = f'.toFile.events ++ [.newline (detectNewline f'.toFile)] ∧
     f'.write = [91, 97, 93, 10, 9, 107, 32, 61, 32, 34, 120, 32, 121, 32, 34, 10] := by
-  refine ⟨_, _, rfl, rfl, by decide +kernel, by decide +kernel, ⟨_, rfl, rfl⟩, by decide +kernel, by decide +kernel⟩
+  refine ⟨_, _, rfl, rfl, by decide +kernel, ⟨_, rfl, rfl⟩, by decide +kernel, by decide +kernel⟩
 
 /-- The property in full (NOT proved): after any call that succeeds, serializing and re-parsing
 gives the view the call means, i.e. `view (load (write (apply f op))) = view (apply f op)`.
